@@ -126,5 +126,22 @@ CLAIMED['C18'] = {
     'note': 'argparse replaced by a stub returning the declared options; OS resolver replaced by FakeNet; label obligation uses 4 concrete host classes; known finding: -64 order.',
 }
 
+CLAIMED['C11'] = {
+    'engines': 'ZX+P2Z',
+    'technique': 'symbolic execution of KexDH.recv_reply on well-formed replies with symbolic field contents, of HostKeyTest.perform_test with symbolic measured sizes, and of the reporting code; SMT-LIB translation of __adjust_key_size (unbounded)',
+    'text': 'For every content of well-formed replies of the listed layouts/lengths the recorded key size, CA type and CA size equal the presented ones and the blob is returned '
+            'unchanged; __adjust_key_size is proved for every byte length; for all measured sizes of the listed digit counts the table edits equal the 2048/3072 (224/256 ECC) '
+            'threshold rule on every RSA-family member and no other row; suffixes, JSON fields and fingerprint entry rules match.',
+    'note': 'Field lengths from a shape list (moduli 65..513 bytes quick); stub socket/key-exchange objects in perform_test; hashlib trusted (concrete blobs); off-grid moduli outside.',
+}
+CLAIMED['C12'] = {
+    'engines': 'ZX',
+    'technique': 'symbolic execution of the real GEXTest.run against a server model whose moduli set is a symbolic 9-bit have-set (three selection styles), of send_init_gex/get_dh_modulus_size on moduli of exact bit length, and of the OpenSSH-2048 post-processing',
+    'text': 'For ALL 512 subsets of the nine standard sizes x 3 monotone selection styles x sha1/sha256 x OpenSSH/other: recorded size == smallest modulus handed out over the fixed '
+            'probe sequence (OpenSSH 2048: the follow-up reply plus note), failure < 2048, warning 2048..3071, nothing from 3072, sha1 keeps a failure, <= 9 probes, no other row '
+            'touched; measured size == bit length for all moduli of the listed bit lengths; note/suppression iff OpenSSH and 2048 and sha256 advertised.',
+    'note': 'GEXTest._send_init replaced by the symbolic server model; non-monotone servers outside (property quantifies over monotone policies); randrange/pow stubbed.',
+}
+
 NOT_APPLICABLE = {
 }
